@@ -128,7 +128,7 @@ def request(cfg, raw, hmap, o):
 
 
 # ----------------------------------------------------------------------------------------- honest PSBTs
-def build_p2sh_via_helper(rng, w, n_inputs, n_spend, with_change, same_addr=False, change_at=None):
+def build_p2sh_via_helper(rng, w, n_inputs, n_spend, with_change, same_addr=False, change_at=None, zero_out=None):
     """psbt_helper.create_multisig_psbt: records [xfp, xpub at the base path, base path]"""
     from buidl.psbt_helper import create_multisig_psbt
     from buidl.script import P2WPKHScriptPubKey, P2PKHScriptPubKey
@@ -160,9 +160,9 @@ def build_p2sh_via_helper(rng, w, n_inputs, n_spend, with_change, same_addr=Fals
     change_at = (change_at % n_out if change_at is not None else r_at) if with_change else None
     output_dicts = []
     b.change_pos = None
+    amounts = PC.split_amounts(rng, remaining, n_out, change_at, zero_out)
     for o in range(n_out):
-        amt = remaining if o == n_out - 1 else rng.randrange(1000, max(1001, remaining // (n_out - o)))
-        remaining -= amt
+        amt = amounts[o]
         if o == change_at:
             cidx = rng.randrange(0, 6)
             spk, rs, ws = w.scripts(1, cidx)
@@ -327,16 +327,25 @@ def tamper(name, rng, b, raw, pos=0):
             return None
         cidx = b.change_index + 30
         spk, rs, ws = w.scripts(1, cidx)
-        tx_out = TxOut(1500, spk)
         named = {}
         for k in range(w.n):
             nm = w.named(k, 1, cidx)
             named[nm.sec()] = nm.point
-        po = PSBTOut.__new__(PSBTOut)
-        po.tx_out, po.redeem_script, po.witness_script, po.named_pubs, po.extra_map = tx_out, rs, ws, named, {}
-        q.tx_obj.tx_outs.append(tx_out)
-        q.psbt_outs.append(po)
-        return q.serialize()
+        large = b.tx_obj.tx_outs[cpos].amount
+        res = []
+        for a_first, a_second, second_before in ((large, 1500, False), (0, 1500, False), (0, 0, False), (large, 0, False),
+                                                 (0, large, True), (1, 546, False), (546, 0, True), (large, large, True), (1, 1, False)):
+            with PC.Oracle():
+                q2 = PC.reparse(raw)
+            q2.psbt_outs[cpos].tx_out.amount = a_first if not second_before else a_second
+            tx_out = TxOut(a_second if not second_before else a_first, spk)
+            po = PSBTOut.__new__(PSBTOut)
+            po.tx_out, po.redeem_script, po.witness_script, po.named_pubs, po.extra_map = tx_out, rs, ws, dict(named), {}
+            at = cpos if second_before else len(q2.psbt_outs)
+            q2.tx_obj.tx_outs.insert(at, tx_out)
+            q2.psbt_outs.insert(at, po)
+            res.append(q2.serialize())
+        return res
     if name == "nonstandard_spk_with_hash":
         if cpos is None or st == "p2sh":
             return None
@@ -438,23 +447,102 @@ def tamper(name, rng, b, raw, pos=0):
     return None
 
 
+def script_matrix(rng, b, raw, full):
+    """the change output under every combination of {scriptPubKey kind} x {RedeemScript record} x {WitnessScript
+    record}; S = the wallet's change script, A = an attacker's script of the same shape, N_X = the nested witness
+    program `0 <sha256 X>`.  The derivation records stay the wallet's.  Yields (label, bytes, commits) where
+    `commits` says whether the scriptPubKey ITSELF commits by hash to the wallet's script S through the attached
+    records — the only situation in which the output may be labelled change."""
+    from buidl.script import (RedeemScript, WitnessScript, P2SHScriptPubKey, P2WSHScriptPubKey, Script)
+
+    w, cpos = b.wallet, b.change_pos
+    if cpos is None:
+        return
+    ks = sorted(w.secs(1, b.change_index))
+    other = PC.make_wallet(rng, w.m, w.n, w.stype)
+    ka = sorted(other.secs(1, b.change_index))
+    cS = [80 + w.m] + ks + [80 + w.n, 174]
+    cA = [80 + w.m] + ka + [80 + w.n, 174]
+    wsS, wsA = WitnessScript(cS), WitnessScript(cA)
+    nS, nA = RedeemScript([0, wsS.sha256()]), RedeemScript([0, wsA.sha256()])
+    rS, rA = RedeemScript(cS), RedeemScript(cA)
+    spks = {"P2WSH(S)": P2WSHScriptPubKey(wsS.sha256()), "P2WSH(A)": P2WSHScriptPubKey(wsA.sha256()),
+            "P2SH(N_S)": P2SHScriptPubKey(nS.hash160()), "P2SH(N_A)": P2SHScriptPubKey(nA.hash160()),
+            "V1(S)": Script([0x51, wsS.sha256()]), "P2SH(S)": P2SHScriptPubKey(rS.hash160()), "P2SH(A)": P2SHScriptPubKey(rA.hash160())}
+    reds = {"-": None, "N_S": nS, "N_A": nA, "S": rS, "A": rA}
+    wits = {"S": wsS, "A": wsA, "-": None}
+
+    def commits(spk, rs, ws):
+        if ws is not None:
+            if ws.raw_serialize() != wsS.raw_serialize():
+                return False
+            if spk.is_p2wsh():      # a native program commits by itself (a stray RedeemScript record is the model's business)
+                return spk.commands[1] == ws.sha256()
+            if rs is None:
+                return False
+            return (spk.is_p2sh() and spk.commands[1] == rs.hash160() and rs.is_p2wsh() and rs.commands[1] == ws.sha256())
+        if rs is not None:
+            return rs.raw_serialize() == rS.raw_serialize() and spk.is_p2sh() and spk.commands[1] == rs.hash160()
+        return False
+
+    combos = [(a, r, x) for a in spks for r in reds for x in wits]
+    must = [("P2WSH(A)", "N_S", "S"), ("P2WSH(A)", "-", "S"), ("P2WSH(S)", "N_S", "S"), ("P2SH(N_A)", "N_S", "S"),
+            ("P2SH(N_S)", "N_S", "S"), ("P2SH(A)", "S", "-"), ("P2SH(S)", "S", "-"), ("V1(S)", "-", "S"), ("P2WSH(S)", "-", "S"),
+            ("P2SH(N_S)", "-", "S"), ("P2WSH(S)", "N_A", "S"), ("P2SH(S)", "S", "S")]
+    if not full:
+        rest = [c for c in combos if c not in must]
+        rng.shuffle(rest)
+        combos = must + rest[:10]
+    with PC.Oracle():
+        base = PC.reparse(raw)
+    for a, r, x in combos:
+        with PC.Oracle():
+            q = PC.reparse(raw)
+        po = q.psbt_outs[cpos]
+        po.tx_out.script_pubkey, po.redeem_script, po.witness_script = spks[a], reds[r], wits[x]
+        t = q.serialize()
+        if t == raw:
+            continue
+        yield f"spk={a} redeem={r} witness={x}", t, commits(spks[a], reds[r], wits[x])
+
+
 # ----------------------------------------------------------------------------------------- one PSBT
 def psbt_job(spec):
+    """one honest PSBT and its tamperings.  A library exception while the HONEST PSBT is built / serialised is a failed
+    predicate (`honest_psbt_builds`), not a harness malfunction; exceptions of harness code propagate (exit 2)."""
+    import traceback
+
+    lines, preds = [], []
+    try:
+        return _psbt_job(spec, lines, preds)
+    except Exception as e:
+        tb = traceback.extract_tb(e.__traceback__)
+        if not tb or os.sep + "buidl" + os.sep not in tb[-1].filename:
+            raise
+        preds.append(("honest_psbt_builds", {"spec": spec, "pred": "honest_psbt_builds"}, False,
+                      f"{type(e).__name__}: {e} (raised in {os.path.basename(tb[-1].filename)}:{tb[-1].name})"[:240],
+                      "the honest PSBT is built and its tamperings are evaluated"))
+        return {"lines": lines, "preds": preds, "stats": {"stype": spec["stype"], "m": spec["m"], "n": spec["n"], "helper": False,
+                                                          "inputs": spec["n_inputs"], "in_psbt": spec.get("xpubs_in_psbt", True),
+                                                          "same_addr": bool(spec.get("same_addr"))}}
+
+
+def _psbt_job(spec, lines, preds):
     _setup()
     rng = random.Random(spec["seed"])
     w = PC.make_wallet(rng, spec["m"], spec["n"], spec["stype"])
-    lines, preds = [], []
     case0 = {"spec": spec}
     in_psbt = spec.get("xpubs_in_psbt", True)
     if spec["stype"] == "p2sh" and spec["via_helper"]:
         b = build_p2sh_via_helper(rng, w, spec["n_inputs"], spec["n_spend"], spec["change"],
-                                  same_addr=spec.get("same_addr", False), change_at=spec.get("change_at"))
+                                  same_addr=spec.get("same_addr", False), change_at=spec.get("change_at"),
+                                  zero_out=spec.get("zero_out"))
         if not in_psbt:
             b.psbt.hd_pubs = {}          # a "slimmed down" PSBT: the caller has to supply the xpubs
     else:
         b = PC.build_psbt(rng, w, n_inputs=spec["n_inputs"], n_spend=spec["n_spend"], with_change=spec["change"],
                           global_xpubs=in_psbt, unknowns=spec["unknowns"], same_addr=spec.get("same_addr", False),
-                          change_at=spec.get("change_at"))
+                          change_at=spec.get("change_at"), zero_out=spec.get("zero_out"))
     raw = b.psbt.serialize()
     # the two ways of giving describe_basic_multisig the cosigners' xpubs
     styles = ([("global xpubs", None)] if in_psbt else []) + [("caller map", w.hdpubkey_map())]
@@ -521,6 +609,22 @@ def psbt_job(spec):
                 c = dict(case0, tamper=name, pos=pos, variant=vi, style="caller map" if hmap else "global xpubs")
                 lines.append(("describe_tampered", c, request("fixed", traw, hmap, o), ans))
                 preds.append(("tampered_rejected", dict(c, pred="tampered_rejected"), ans == REJECT, ans[:160], REJECT))
+    # the change output under every {scriptPubKey} x {RedeemScript record} x {WitnessScript record} combination: the
+    # verdict is the model's; independently, a change label requires the scriptPubKey itself to commit to the script
+    if b.change_pos is not None and spec["stype"] != "p2sh-p2wsh":
+        mrng = random.Random(f"{spec['seed']}:matrix")
+        for vi, (label, traw, commit_ok) in enumerate(script_matrix(mrng, b, raw, spec.get("full_matrix", False))):
+            slabel, hmap = styles[vi % len(styles)]
+            ans, o = describe_real(traw, hmap)
+            c = dict(case0, tamper="output_script_matrix", pos=b.change_pos, combo=label, style=slabel)
+            lines.append(("describe_matrix", c, request("fixed", traw, hmap, o), ans))
+            labelled = False
+            if ans != REJECT:
+                t = ans.split(" ")
+                off = 9 + 3 * int(t[8])
+                labelled = t[off + 2 + 2 * b.change_pos] == "1"
+            preds.append(("change_label_commits", dict(c, pred="change_label_commits"), (not labelled) or commit_ok,
+                          "labelled change" if labelled else "not labelled", "labelled only if the scriptPubKey commits to the wallet's script"))
     return {"lines": lines, "preds": preds, "stats": {"stype": spec["stype"], "m": spec["m"], "n": spec["n"],
                                                       "helper": bool(spec["stype"] == "p2sh" and spec["via_helper"]),
                                                       "inputs": spec["n_inputs"], "in_psbt": in_psbt,
@@ -532,18 +636,24 @@ def finding_witnesses():
     """fixed witnesses of F11a–F11f replayed on every run: (id, reproduces, witness)"""
     _setup()
     res = []
-    for fid, name, st in (("F11a", "one_cosigner_change", "p2sh"), ("F11b", "swap_change_spk", "p2sh"),
-                          ("F11c", "nonstandard_spk_with_hash", "p2wsh"), ("F11d", "utxo_amount", "p2sh"),
-                          ("F11e", "extra_script_commands", "p2wsh"), ("F11f", "witness_utxo_on_legacy", "p2sh"),
-                          ("F11g", "witness_script_without_witness_utxo", "p2wsh"), ("F11g", "redeem_on_native_segwit", "p2wsh")):
-        rng = random.Random(f"C11-finding-{fid}")
+    # (finding, tampering, wallet type, with a change output).  F11d only shows on witness inputs (on a bare-P2SH input
+    # the witness UTXO is already refused by F11f); F11f / F11g replace the input's script by one with another
+    # threshold, which an honest change output would contradict, so their witnesses spend without change.
+    for fid, name, st, chg in (("F11a", "one_cosigner_change", "p2sh", True), ("F11b", "swap_change_spk", "p2sh", True),
+                               ("F11c", "nonstandard_spk_with_hash", "p2wsh", True), ("F11d", "utxo_amount", "p2wsh", True),
+                               ("F11e", "extra_script_commands", "p2wsh", True), ("F11f", "witness_utxo_on_legacy", "p2sh", False),
+                               ("F11g", "witness_script_without_witness_utxo", "p2wsh", False),
+                               ("F11g", "redeem_on_native_segwit", "p2wsh", False)):
+        rng = random.Random(f"C11-finding-{fid}-{name}")
         w = PC.make_wallet(rng, 2, 3, st)
-        b = PC.build_psbt(rng, w, n_inputs=1, n_spend=1, with_change=True, global_xpubs=True)
+        b = PC.build_psbt(rng, w, n_inputs=1, n_spend=1, with_change=chg, global_xpubs=True)
         raw = b.psbt.serialize()
         t = tamper(name, rng, b, raw)
         ts = t if isinstance(t, list) else [t]
         rep = None
         for tr in ts:
+            if tr is None:
+                continue
             ans, _ = describe_real(tr, None)
             if ans != REJECT:
                 rep = ans
@@ -574,7 +684,12 @@ def psbt_specs(ctx):
                       # several inputs spending UTXOs of ONE wallet address (same script, same derivation paths)
                       "same_addr": n_inputs > 1 and (k // 2) % 2 == 0,
                       # the change output first / middle / last
-                      "change_at": k % 3})
+                      "change_at": k % 3,
+                      # an honest output of exactly 0 sats: the change output, or a spend output
+                      "zero_out": {1: "change", 4: "spend"}.get(k % 7),
+                      # the whole {scriptPubKey} x {RedeemScript record} x {WitnessScript record} matrix on the change output
+                      # (otherwise a sample of it)
+                      "full_matrix": bool(ctx.thorough) or k % 6 == 0})
     return specs
 
 
@@ -613,6 +728,8 @@ def run(ctx):
             if ok:
                 rec.ok(pk, repr(case)[:400])
                 rec.sample(pk, case, limit=1)
+                if pk == "change_label_commits":
+                    rec.count("matrix:" + got + ":" + case["combo"].split(" ")[0])
                 if pk == "tampered_rejected":
                     rec.count("tamper:" + case["tamper"])
                     rec.count(f"tamper-position:{case['pos']}:{case['style']}")
@@ -656,15 +773,21 @@ def impl_line(line):
 
 def replay(ctx, v):
     case = v["case"]
+    if v["kind"].startswith("regression:"):
+        # a finding recorded as fixed: its witness is re-executed on the working tree
+        fid = v["kind"].split(":", 1)[1]
+        ws = finding_witnesses()
+        return any(f == fid and reproduces for f, reproduces, _ in ws)
     spec = case.get("spec")
     if spec is None:
         return False
     res = psbt_job(spec)
     for pk, c, ok, got, want in res["preds"]:
-        if pk == v["kind"] and not ok and c.get("tamper") == case.get("tamper") and c.get("pos") == case.get("pos"):
+        if (pk == v["kind"] and not ok and c.get("tamper") == case.get("tamper") and c.get("pos") == case.get("pos")
+                and c.get("combo") == case.get("combo")):
             return True
     lines = [l for l in res["lines"] if l[0] == v["kind"] and l[1].get("tamper") == case.get("tamper")
-             and l[1].get("pos") == case.get("pos")]
+             and l[1].get("pos") == case.get("pos") and l[1].get("combo") == case.get("combo")]
     if lines:
         answers = ctx.driver("drv_c11").batch([l[2] for l in lines])
         for (k, c, line, impl), model in zip(lines, answers):
@@ -674,11 +797,13 @@ def replay(ctx, v):
 
 
 PREDICATE_DOC = {
+    "honest_psbt_builds": "no library exception escapes while an honest PSBT is built through the API",
     "honest_described": "an honest P2SH / P2WSH PSBT is summarised (no exception)",
     "p2sh_p2wsh_unsupported": "P2SH-P2WSH inputs are refused altogether (documented limitation), also by the model",
     "honest_sums_add_up": "fee = inputs - outputs = the fee the wallet intended; spend + change + fee = inputs",
     "honest_change_labels_exact": "is_change is true for the wallet's change output and for no other output",
     "no_xpubs_refused": "without global xpubs and without hdpubkey_map the summary is refused",
+    "change_label_commits": "under every {scriptPubKey kind} x {RedeemScript record} x {WitnessScript record} combination on the change output, it is labelled change only if the scriptPubKey itself commits by hash (P2WSH, P2SH, P2SH-P2WSH) to the wallet's script through the attached records",
     "tampered_rejected": "every applicable item of the tampering catalogue makes describe_basic_multisig raise",
 }
 
